@@ -61,14 +61,20 @@ int raw_value(int v) {
   }
 }
 void setter(inst_t a, int which, int value) {
-  enum asm_opt o = (enum asm_opt)raw_value(value);
-  assemblyline_t al = (assemblyline_t)a;
+  // the arguments are expressions with side effects, as a caller may well write them (asm_sib(al, script[i++])):
+  // a function evaluates each argument once; should a tree turn a setter into a macro that does not, the second
+  // evaluation yields another documented value and the instance ends up in another state
+  const int v0 = raw_value(value);
+  const int other = v0 >= 0 && v0 <= 2 ? (v0 + 1) % 3 : v0;
+  int script[4] = {v0, other, other, other};
+  assemblyline_t who[4] = {(assemblyline_t)a, (assemblyline_t)a, (assemblyline_t)a, (assemblyline_t)a};
+  int i = 0, w = 0;
   switch (which) {
-    case S_MOV_IMM: asm_mov_imm(al, o); break;
-    case S_SWAP: asm_sib_index_base_swap(al, o); break;
-    case S_NOBASE: asm_sib_no_base(al, o); break;
-    case S_SIB: asm_sib(al, o); break;
-    case S_SET_ALL: asm_set_all(al, o); break;
+    case S_MOV_IMM: asm_mov_imm(who[w++], (enum asm_opt)script[i++]); break;
+    case S_SWAP: asm_sib_index_base_swap(who[w++], (enum asm_opt)script[i++]); break;
+    case S_NOBASE: asm_sib_no_base(who[w++], (enum asm_opt)script[i++]); break;
+    case S_SIB: asm_sib(who[w++], (enum asm_opt)script[i++]); break;
+    case S_SET_ALL: asm_set_all(who[w++], (enum asm_opt)script[i++]); break;
     default: break;
   }
 }
